@@ -17,6 +17,7 @@ import Daac.Proofs.CharSpec
 import Daac.Proofs.LmSem
 import Daac.Proofs.LmAbs
 import Daac.Proofs.LmIter
+import Daac.Proofs.Rung2
 namespace Daac.Props.C08
 open Daac
 variable {V : Type} [DecidableEq V]
@@ -120,5 +121,35 @@ root without any table access ("simply interrupts matching"). -/
 theorem unmapped_to_root (da : DA V) (s label : Nat) (h : da.code label = none) :
     da.next s label = .ok rootIdx ∧ da.nextLm s label = .ok rootIdx := by
   simp [DA.next, DA.nextLm, DA.nextS, DA.nextLmS, h, Except.map]
+
+
+/-! ### Rung 2 — agreement for every UTF-8 pattern collection, in the model of both builders -/
+
+/-- The byte-wise automaton built from the UTF-8 bytes of the patterns and the char-wise
+automaton built from the same patterns return the same overlapping matches (byte offsets and
+values) on every valid UTF-8 haystack — for every collection and every `num_free_blocks`. -/
+theorem agree_build_overlapping (nb nc : Nat) (Q : List (List Nat × V)) (hQ : ScalarPats Q)
+    (hQ0 : Q ≠ []) (hnd : (Q.map (·.1)).Nodup) (hVb : ValidPats (Q.map bytePat))
+    (hbytes : ∀ p ∈ Q.map bytePat, ∀ b ∈ p.key, b < 256) (db dc : DA V)
+    (hb : buildDA .bytewise ⟨0, nb⟩ ((Q.map bytePat).map lp) = .ok db)
+    (hc : buildDA .charwise ⟨0, nc⟩ (Q.map charPat) = .ok dc)
+    (t : List Nat) (ht : Scalars t) (hbt : ∀ b ∈ encAll t, b < 256) :
+    ∃ lb lc fb fc, ovAll db (encAll t) = .ok (lb, fb) ∧ ovAll dc (encAll t) = .ok (lc, fc) ∧
+      lb.map (·.1) = lc.map (·.1) := by
+  obtain ⟨lb, fb, a1, b1⟩ := bytewise_overlapping_correct nb (Q.map bytePat) hVb hbytes db hb (encAll t) hbt
+  obtain ⟨lc, fc, a2, b2⟩ := charwise_overlapping_correct nc Q hQ hQ0 hnd dc hc t ht
+  exact ⟨lb, lc, fb, fc, a1, a2, by rw [b1, b2]⟩
+
+theorem agree_build_leftmost_longest (nb nc : Nat) (Q : List (List Nat × V)) (hQ : ScalarPats Q)
+    (hQ0 : Q ≠ []) (hnd : (Q.map (·.1)).Nodup) (hVb : ValidPats (Q.map bytePat))
+    (hbytes : ∀ p ∈ Q.map bytePat, ∀ b ∈ p.key, b < 256) (db dc : DA V)
+    (hb : buildDA .bytewise ⟨1, nb⟩ ((Q.map bytePat).map lpOf) = .ok db)
+    (hc : buildDA .charwise ⟨1, nc⟩ (Q.map charPat) = .ok dc)
+    (t : List Nat) (ht : Scalars t) (hbt : ∀ b ∈ encAll t, b < 256) :
+    ∃ lb lc, lmAll db (encAll t) = .ok (lb, 0) ∧ lmAll dc (encAll t) = .ok (lc, 0) ∧
+      lb.map (·.1) = lc.map (·.1) := by
+  obtain ⟨lb, a1, b1⟩ := bytewise_leftmost_longest_correct nb (Q.map bytePat) hVb hbytes db hb (encAll t) hbt
+  obtain ⟨lc, a2, b2⟩ := charwise_leftmost_longest_correct nc Q hQ hQ0 hnd dc hc t ht
+  exact ⟨lb, lc, a1, a2, by rw [b1, b2]⟩
 
 end Daac.Props.C08
